@@ -128,6 +128,15 @@ def _loads(e, out, under_addr=False):
         _loads(a, out)
 
 
+def _is_view(e):
+    """a local (or an offset from one) whose own type is pointer-to-const: a read-only view, whatever it was derived from"""
+    e = cf.strip_casts(e)
+    while isinstance(e, dict) and e.get('k') == 'bin' and e['op'] in ('+', '-'):
+        e = cf.strip_casts(e['l'])
+    return isinstance(e, dict) and e.get('k') == 'ref' and not e.get('p') and not e.get('g') and \
+        re.match(r'^const [^*]*\*', e.get('ty') or '') is not None
+
+
 def out_reads(P, f, tu):
     """list of (loc, text) places where f reads through an output-derived pointer"""
     R = Roles(f)
@@ -166,6 +175,8 @@ def out_reads(P, f, tu):
             ls = []
             _loads(x, ls)
             for node, ptr in ls:
+                if _is_view(ptr):
+                    continue        # counted where the read-only view of the output was created
                 if R.role(ptr, b, i) == 'out':
                     res.append((ev['loc'], 'load ' + guards.lv(node)))
             # pointers handed to const parameters
@@ -181,7 +192,7 @@ def out_reads(P, f, tu):
                         if re.match(r'^const [^*]*\*', p.get('type') or '') and _ptype_role(p['type']) == 'in':
                             constpos.add(pi)
                 for pi in constpos:
-                    if pi < len(args) and R.role(args[pi], b, i) == 'out':
+                    if pi < len(args) and not _is_view(args[pi]) and R.role(args[pi], b, i) == 'out':
                         res.append((ev['loc'], '%s(arg %d: %s)' % (fn, pi, guards.lv(args[pi]))))
     return res
 
